@@ -604,10 +604,23 @@ func (st *State) havocArray(name string) string {
 // invariant (every stored reference is < alloc) can be assumed.
 func (st *State) wellTyped(name, sym, alloc string) {
 	if strings.HasPrefix(name, "GG_") {
-		if sort, ok := st.vc.arrSorts[name]; ok && sort == arrSort(SInt, SInt) {
+		// ghost maps keyed by references: entries of unallocated references have their default value
+		g, isG := st.vc.gglobals[strings.TrimPrefix(name, "GG_")]
+		if sort, ok := st.vc.arrSorts[name]; ok && isG && strings.HasPrefix(g.GoTyp, "ref") && strings.HasPrefix(string(sort), "(Array Int ") {
+			es := strings.TrimSuffix(strings.TrimPrefix(string(sort), "(Array Int "), ")")
+			def := zeroOf(Sort(es))
+			if strings.HasPrefix(es, "(Array") {
+				def = "((as const " + es + ") false)"
+				if strings.HasSuffix(es, "Int)") {
+					def = "((as const " + es + ") 0)"
+				}
+			}
+			if es == "Bool" {
+				return // plain sets of values (not keyed by references)
+			}
 			st.vc.counter++
 			o := fmt.Sprintf("o!%d", st.vc.counter)
-			st.assume(fmt.Sprintf("(forall ((%s Int)) (! (=> (>= %s %s) (= (select %s %s) 0)) :pattern ((select %s %s))))", o, o, alloc, sym, o, sym, o))
+			st.assume(fmt.Sprintf("(forall ((%s Int)) (! (=> (>= %s %s) (= (select %s %s) %s)) :pattern ((select %s %s))))", o, o, alloc, sym, o, def, sym, o))
 		}
 		return
 	}
